@@ -328,6 +328,12 @@ def run_qcase(case):
             it = find(e, d, trace=t) if vals else find_matches(e, d, trace=t)
             iters.append((it, vals, push))
             out.append(ON("iter"))
+        elif k == 'reiter':
+            if c[1] >= len(iters):
+                out.append(SKIP)
+                continue
+            # what a for loop or list() does first: iter(it) is the iterator itself and changes nothing
+            out.append(ON("reiter", [obool(iter(iters[c[1]][0]) is iters[c[1]][0])]))
         elif k == 'next':
             if c[1] >= len(iters):
                 out.append(SKIP)
